@@ -351,7 +351,7 @@ var deepCalls = []string{"Decode+Apply", "Apply-test-root", "Equal", "MergePatch
 var slowCalls = map[string]bool{"Apply-test-root": true, "Equal": true, "MergePatch": true, "MergeMergePatches": true}
 
 func checkDeep(c DeepCase) ev.Verdict {
-	if c.Depth < 1 || c.Depth > 10001 || c.Kind < 0 || c.Kind > 2 {
+	if c.Depth < 1 || c.Depth > 10001 || c.Kind < 0 || c.Kind > 4 {
 		return ev.Excluded("depth/kind outside the unit")
 	}
 	a := []byte(gen.Deep(c.Depth, c.Kind))
@@ -360,6 +360,9 @@ func checkDeep(c DeepCase) ev.Verdict {
 		wrap = []byte(`[` + string(a) + `]`)
 	}
 	_ = wrap
+	if c.Kind >= 3 {
+		a = []byte(`{"x":` + string(a) + `}`) // as a member value: the shape CreateMergePatch compares element by element
+	}
 	var f func()
 	v5 := c.Pkg == "v5"
 	switch c.Call {
@@ -439,7 +442,7 @@ func checkDeep(c DeepCase) ev.Verdict {
 
 var deepUnit = ev.Unit[DeepCase]{
 	Name:  "deep-nesting",
-	Rule:  "each entry point, v5 and legacy, once per (arrays, objects, alternating) x nesting depth around the codec's limit: 9 999, 10 000 and 10 001 levels for the linear calls (DecodePatch+Apply with the deep text as document, as add value and as the patch itself; CreateMergePatch); the quadratic calls (Equal, MergePatch, MergeMergePatches, test of the root) at depth 2 500 in the quick tier and at the full depths in the thorough tier; oracle: returns without panic (a case that exceeds the watchdog is nominated as a hang); every case non-trivial; the list is enumerated completely",
+	Rule:  "each entry point, v5 and legacy, once per (arrays, objects, alternating) x nesting depth around the codec's limit (and 24 / 48 / 400 levels with a sibling element or member at every level, where work that doubles per level explodes): 9 999, 10 000 and 10 001 levels for the linear calls (DecodePatch+Apply with the deep text as document, as add value and as the patch itself; CreateMergePatch); the quadratic calls (Equal, MergePatch, MergeMergePatches, test of the root) at depth 2 500 in the quick tier and at the full depths in the thorough tier; oracle: returns without panic (a case that exceeds the watchdog is nominated as a hang); every case non-trivial; the list is enumerated completely",
 	Check: checkDeep, Guard: true,
 }
 
@@ -453,6 +456,13 @@ func deepCases(tier string) []DeepCase {
 					depths = []int{2500}
 				}
 				for _, d := range depths {
+					out = append(out, DeepCase{pkg, call, kind, d})
+				}
+			}
+			// moderately deep, but with a sibling at every level: work that doubles per level
+			// (a comparison that visits an element twice) explodes long before depth 100
+			for kind := 3; kind <= 4; kind++ {
+				for _, d := range []int{24, 48, 400} {
 					out = append(out, DeepCase{pkg, call, kind, d})
 				}
 			}
